@@ -182,6 +182,9 @@ func (f *Fleet) Close() {
 // ---- application side -------------------------------------------------------
 
 // AppWrite commits one application transaction with several changes.
+// IntKeyDBI is the name of the application DBI that is created with MDB_INTEGERKEY.
+const IntKeyDBI = "n0"
+
 type Change struct {
 	DBI string
 	Key []byte
@@ -196,7 +199,11 @@ func (f *Fleet) AppCommit(i int, changes []Change) error {
 	before := lm.LastTxnID(in.Env.Env)
 	err := in.Env.Update(func(txn *lmdb.Txn) error {
 		for _, ch := range changes {
-			dbi, err := txn.OpenDBI(ch.DBI, lmdb.Create)
+			fl := uint(lmdb.Create)
+			if ch.DBI == IntKeyDBI {
+				fl |= lmdb.IntegerKey
+			}
+			dbi, err := txn.OpenDBI(ch.DBI, fl)
 			if err != nil {
 				return err
 			}
